@@ -215,6 +215,30 @@ CODEPOINTS = [0, 1, 0x41, 0x7f, 0x80, 0x7ff, 0x800, 0xd7ff, 0xd800, 0xdfff, 0xe0
               0x1fffff, 0x200000, 0x3ffffff, 0x4000000, 0x7fffffff]
 
 
+def utf8enc_forced(x, n):
+    """x written with exactly n >= 2 bytes (overlong when x is below the minimum for n)"""
+    out = []
+    for _ in range(n - 1):
+        out.append(0x80 | (x & 0x3f))
+        x >>= 6
+    lead = (0xff << (8 - n)) & 0xff
+    out.append(lead | x)
+    return bytes(reversed(out))
+
+
+UTF8_MIN = {2: 0x80, 3: 0x800, 4: 0x10000, 5: 0x200000, 6: 0x4000000}
+
+
+def utf8_overlongs():
+    out = []
+    for n, lo in UTF8_MIN.items():
+        cap = (1 << (5 * n + 1)) - 1          # payload bits of an n-byte sequence
+        for v in (0, 1, 0x2f, lo // 2, lo - 1, lo, lo + 1, (lo * 3) // 4, (lo * 7) // 8):
+            if v <= cap:
+                out.append(utf8enc_forced(v, n))
+    return out
+
+
 def utf8_subjects(rng):
     good = [utf8enc(c) for c in CODEPOINTS]
     bad = [b"\x80", b"\xbf", b"\xc0\x80", b"\xc1\xbf", b"\xe0\x80\x80", b"\xf0\x80\x80\x80", b"\xc3", b"\xe4\xb8", b"\xf0\x9f\x98",
@@ -223,7 +247,8 @@ def utf8_subjects(rng):
     for _ in range(40):
         parts = [rng.choice(good if rng.random() < .7 else bad) for _ in range(rng.randint(0, 4))]
         out.append(b"".join(parts))
-    return out + good + bad + [b"", b"A\x80", b"ab", b"\xe4\xb8\xadA"]
+    over = utf8_overlongs()
+    return out + good + bad + over + [o + b"A" for o in over[::3]] + [b"", b"A\x80", b"ab", b"\xe4\xb8\xadA"]
 
 
 # ---- the case file -----------------------------------------------------------------------------
@@ -566,18 +591,30 @@ def build_driver(ctx, asan=False):
     out = os.path.join(ctx.work, "driver-" + key)
     if os.path.exists(out):
         return out
+    prune_work(ctx)
+    extra = ["--cflags=-fsanitize=address -fno-omit-frame-pointer -g"] if asan else []
+    tmp = "%s.tmp%d" % (out, os.getpid())
+    rc, o, e = vlib.nelua_build(src, tmp, extra=extra, cache_dir=os.path.join(ctx.work, "nelua-cache-%s-%d" % (key, os.getpid())))
+    if rc != 0 or not os.path.exists(tmp):
+        raise RuntimeError("cannot compile the Nelua driver: " + (o + e)[-1500:])
+    os.rename(tmp, out)
+    return out
+
+
+def prune_work(ctx, max_age=7200):
+    """drivers and compile caches of other source states (another run may be using them: only remove
+    what has not been touched for two hours)"""
+    import shutil
+    import time
+    now = time.time()
     for f in os.listdir(ctx.work):
-        if f.startswith("driver-") and f.endswith("-asan" if asan else "") and (asan or not f.endswith("-asan")):
+        if f.startswith(("driver-", "nelua-cache-", "probe-cache-")):
+            p = os.path.join(ctx.work, f)
             try:
-                os.remove(os.path.join(ctx.work, f))
+                if now - os.path.getmtime(p) > max_age:
+                    shutil.rmtree(p) if os.path.isdir(p) else os.remove(p)
             except OSError:
                 pass
-    extra = ["--cflags=-fsanitize=address -fno-omit-frame-pointer -g"] if asan else []
-    rc, o, e = vlib.nelua_build(src, out + ".tmp", extra=extra, cache_dir=os.path.join(ctx.work, "nelua-cache-" + key))
-    if rc != 0 or not os.path.exists(out + ".tmp"):
-        raise RuntimeError("cannot compile the Nelua driver: " + (o + e)[-1500:])
-    os.rename(out + ".tmp", out)
-    return out
 
 
 def run_three(ctx, lines, drv, interp, model, asan_drv=None):
